@@ -5,63 +5,43 @@ namespace CogentModel.AnnotDb
 open CogentModel.Gen.C17Sql CogentModel.AnnotDbSpec
 
 
-theorem partial_iff_overlap (s e a b : Int) (hse : s < e) (hab : a < b) :
-    matchPartial s e a b = true ↔ overlaps s e a b := by
-  unfold matchPartial overlaps
-  simp only [Bool.or_eq_true, Bool.and_eq_true, decide_eq_true_eq]
-  try omega
+/-- what the property theorems establish about the four generated interval clauses -/
+structure ClausesOk : Prop where
+  part : ∀ s e a b : Int, s < e → a < b → (matchPartial s e a b = true ↔ overlaps s e a b)
+  within : ∀ s e a b : Int, matchWithin s e a b = true ↔ within s e a b
+  startOnly : ∀ s e a : Int, matchStartOnly s e a = true ↔ containsPt s e a
+  stopOnly : ∀ s e b : Int, matchStopOnly s e b = true ↔ containsPt s e b
 
-theorem within_iff (s e a b : Int) : matchWithin s e a b = true ↔ within s e a b := by
-  unfold matchWithin within
-  simp only [Bool.or_eq_true, Bool.and_eq_true, decide_eq_true_eq]
-  try omega
-
-theorem start_only_iff (s e a : Int) : matchStartOnly s e a = true ↔ containsPt s e a := by
-  unfold matchStartOnly containsPt
-  simp only [Bool.or_eq_true, Bool.and_eq_true, decide_eq_true_eq]
-  try omega
-
-theorem stop_only_iff (s e a : Int) : matchStopOnly s e a = true ↔ containsPt s e a := by
-  unfold matchStopOnly containsPt
-  simp only [Bool.or_eq_true, Bool.and_eq_true, decide_eq_true_eq]
-  try omega
-
-theorem partial_zero_length (s a b : Int) (hab : a < b) :
-    matchPartial s s a b = true ↔ (a ≤ s ∧ s ≤ b) := by
-  unfold matchPartial
-  simp only [Bool.or_eq_true, Bool.and_eq_true, decide_eq_true_eq]
-  try omega
-
-theorem windowConds_spec (q : Query) (r : Rec) (hr : r.start < r.stop) (hq : WindowOk q) :
+theorem windowConds_spec (ok : ClausesOk) (q : Query) (r : Rec) (hr : r.start < r.stop) (hq : WindowOk q) :
     (windowConds q).all (fun c => c r) = windowMatch q r := by
   unfold windowConds windowMatch
   unfold WindowOk at hq
   cases hs : q.start <;> cases he : q.stop <;> simp only [hs, he] at hq ⊢
   · simp
   · simp only [List.all_cons, List.all_nil, Bool.and_true]
-    rw [Bool.eq_iff_iff, stop_only_iff]; simp
+    rw [Bool.eq_iff_iff, ok.stopOnly]; simp
   · simp only [List.all_cons, List.all_nil, Bool.and_true]
-    rw [Bool.eq_iff_iff, start_only_iff]; simp
+    rw [Bool.eq_iff_iff, ok.startOnly]; simp
   · simp only [List.all_cons, List.all_nil, Bool.and_true]
     cases q.allowPartial
-    · simp only [Bool.false_eq_true, if_false]; rw [Bool.eq_iff_iff, within_iff]; simp
-    · simp only [if_true]; rw [Bool.eq_iff_iff, partial_iff_overlap _ _ _ _ hr hq]; simp
+    · simp only [Bool.false_eq_true, if_false]; rw [Bool.eq_iff_iff, ok.within]; simp
+    · simp only [if_true]; rw [Bool.eq_iff_iff, ok.part _ _ _ _ hr hq]; simp
 
 theorem optCond_spec (q : Option String) (f : Rec → Option String) (r : Rec) :
     (optCond q f).all (fun c => c r) = optMatch q (f r) := by
   cases q <;> simp [optCond, optMatch]
 
-theorem rowMatches_spec (q : Query) (r : Rec) (hr : r.start < r.stop) (hq : WindowOk q) :
+theorem rowMatches_spec (ok : ClausesOk) (q : Query) (r : Rec) (hr : r.start < r.stop) (hq : WindowOk q) :
     rowMatches q r = specMatch q r := by
   unfold rowMatches whereConds columnConds specMatch
-  simp only [List.all_append, optCond_spec, windowConds_spec q r hr hq]
+  simp only [List.all_append, optCond_spec, windowConds_spec ok q r hr hq]
 
-theorem selectTable_spec (t : List Rec) (q : Query) (ht : ∀ r ∈ t, r.start < r.stop) (hq : WindowOk q) :
+theorem selectTable_spec (ok : ClausesOk) (t : List Rec) (q : Query) (ht : ∀ r ∈ t, r.start < r.stop) (hq : WindowOk q) :
     selectTable t q = linearScan t q := by
   unfold selectTable linearScan
   apply List.filter_congr
   intro r hr
-  exact rowMatches_spec q r (ht r hr) hq
+  exact rowMatches_spec ok q r (ht r hr) hq
 
 theorem filter_flatMap {α β} (p : β → Bool) (f : α → List β) (l : List α) :
     (l.flatMap f).filter p = l.flatMap (fun a => (f a).filter p) := by
@@ -69,7 +49,7 @@ theorem filter_flatMap {α β} (p : β → Bool) (f : α → List β) (l : List 
   | nil => rfl
   | cons a l ih => simp [List.flatMap_cons, List.filter_append, ih]
 
-theorem query_is_filter (db : Db) (q : Query) (hdb : ∀ r ∈ db.records, r.start < r.stop) (hq : WindowOk q) :
+theorem query_is_filter_of (ok : ClausesOk) (db : Db) (q : Query) (hdb : ∀ r ∈ db.records, r.start < r.stop) (hq : WindowOk q) :
     getMatching db q = linearScan db.records q := by
   unfold getMatching linearScan Db.records
   unfold Db.records at hdb
@@ -80,7 +60,7 @@ theorem query_is_filter (db : Db) (q : Query) (hdb : ∀ r ∈ db.records, r.sta
   | cons t ts ih =>
     simp only [List.flatMap_cons]
     rw [ih (fun r hr => hdb r (by simp only [List.flatMap_cons, List.mem_append]; exact Or.inr hr))]
-    rw [selectTable_spec t.2 q (fun r hr => hdb r (by simp only [List.flatMap_cons, List.mem_append]; exact Or.inl hr)) hq]
+    rw [selectTable_spec ok t.2 q (fun r hr => hdb r (by simp only [List.flatMap_cons, List.mem_append]; exact Or.inl hr)) hq]
     rfl
 
 
@@ -310,7 +290,7 @@ theorem union_perm_aux (self other d : Db) (hs : self.WF) (ho : other.WF) (h : u
       · have := union_via _ _ _ _ hs ho h; exact ⟨this.1, this.2.2⟩
       · cases h
 
-theorem subset_filter_aux (db d : Db) (q : Query) (hdb : ∀ r ∈ db.records, r.start < r.stop) (hq : WindowOk q)
+theorem subset_filter_aux (db : Db) (q : Query) (hdb : ∀ r ∈ db.records, r.start < r.stop)
     (hcol : hasColumn q = true ∨ hasWindow q = false)
     (sel : ∀ (t : List Rec) , (∀ r ∈ t, r.start < r.stop) → selectTable t q = linearScan t q) :
     ∃ d, subset db q = .ok d ∧ d.kind = db.kind ∧ d.records = linearScan db.records q := by
@@ -357,6 +337,16 @@ theorem gbCoords_positions (l : Loc) (hl : ∀ seg ∈ l.flat, seg.1 ≤ seg.2.1
     obtain ⟨a, b, s⟩ := seg
     simp only [] at hp this ⊢
     omega
+
+theorem foldl_const {α β} (l : List β) (a : α) : l.foldl (fun t _ => t) a = a := by
+  induction l with
+  | nil => rfl
+  | cons x xs ih => simpa using ih
+
+instance (q : Query) : Decidable (WindowOk q) := by
+  unfold WindowOk; split <;> infer_instance
+
+instance (db : Db) : Decidable db.WF := by unfold Db.WF; infer_instance
 
 theorem flat_complement (x : Loc) :
     (Loc.complement x).flat = x.flat.reverse.map fun (a, b, s) => (a, b, -s) := by
